@@ -6,7 +6,7 @@
    props/C17.py.  Names without suffix are the model of the code as it is now (after the
    repairs e85352e, a87b45e, 301715a, 0d52d5b); [_legacy] names model the code before them
    and occur only in the theorems about the defects that were repaired. *)
-From PV Require Import C17.Spec C17.Proofs C17.ProofsMnt.
+From PV Require Import C17.Spec C17.Proofs C17.ProofsMnt C17.ProofsThr Gen.C17_Tables.
 
 (* ---------------------------------------------------------------- users() *)
 (* every file of well-formed login records: user, terminal, host (':0' / ':0.0' as localhost),
@@ -321,3 +321,42 @@ Theorem C17_mounts_legacy_nonutf8_refuted : exists es,
   disk_partitions_legacy true [] (k_mounts es) = Exc UnicodeError.
 Proof. exact mounts_legacy_nonutf8_refuted. Qed.
 Print Assumptions C17_mounts_legacy_nonutf8_refuted.
+
+(* ---------------------------------------------------------------- threads *)
+(* getmntent() hands out ONE static struct mntent + line buffer.  Interleaving model: any number of threads inside
+   disk_partitions(), each on its own file (equal or different), any schedule.  As the code is -- the GIL is held from
+   getmntent() to the end of the decoding of that entry -- what a thread has built plus what it still has to read is
+   always exactly its own file: no foreign entry, none lost, none twice *)
+Theorem C17_getmntent_threads : forall files sched,
+  Forall2 (fun f t => th_out t ++ th_rest t = f) files (ts_threads (run_sched step_gil sched (th_init files))).
+Proof. exact gil_threads_consistent. Qed.
+Print Assumptions C17_getmntent_threads.
+
+(* ... so every finished call returns the single-threaded decode of its file *)
+Theorem C17_getmntent_threads_result : forall files sched i f t,
+  nth_error files i = Some f -> nth_error (ts_threads (run_sched step_gil sched (th_init files))) i = Some t ->
+  th_rest t = [] -> th_out t = f.
+Proof. exact gil_threads_finished. Qed.
+Print Assumptions C17_getmntent_threads_result.
+
+(* variant with the GIL released around getmntent(): a two-thread schedule in which thread 0 returns thread 1's entry *)
+Theorem C17_getmntent_threads_nogil_refuted :
+  exists files sched, files = [[ment_a]; [ment_b]] /\
+  map th_out (ts_threads (run_sched step_nogil sched (th_init files))) = [[ment_b]; [ment_b]].
+Proof. exact nogil_threads_refuted. Qed.
+Print Assumptions C17_getmntent_threads_nogil_refuted.
+
+(* which code runs without the GIL is a fact of the sources: the table Gen/C17_Tables.v is regenerated from the tree under
+   check on every run.  No region between Py_BEGIN_ALLOW_THREADS and Py_END_ALLOW_THREADS calls a libc function that
+   returns static storage (getmntent, getutent, getpwuid, inet_ntoa, strerror, ...) *)
+Theorem C17_gil_free_regions_safe :
+  forallb (fun r => forallb (fun c => negb (mem_str c static_storage_fns)) (snd r)) gil_free_regions = true.
+Proof. vm_compute. reflexivity. Qed.
+Print Assumptions C17_gil_free_regions_safe.
+
+(* ... and the extension keeps no modifiable state of static storage duration besides the two module tables and the debug
+   flag (no cached descriptors, no buffers shared between calls or threads) *)
+Theorem C17_no_shared_mutable_state :
+  forallb (fun v => mem_str (snd v) allowed_statics) mutable_statics = true.
+Proof. vm_compute. reflexivity. Qed.
+Print Assumptions C17_no_shared_mutable_state.
